@@ -220,10 +220,14 @@ def check(datas, commons, acc, case, fast=False, layout=None):
         ccube(dims).walk([lambda c, r: log1.append((c, r)), lambda c, r: log2.append((c, r))])
         log3 = []
         ccube(dims).walk(lambda c, r: log3.append((c, r)))
+        # the SAME cube object walked again (what one walk leaves on the cube must not show in the next)
+        log4 = []
+        cube.walk(lambda c, r: log4.append((c, r)))
+        inter2 = cube.interactions()
     except Exception as e:  # noqa
         acc.violation("walk:raised", case, repr(e))
         return exp
-    logs = [("interactions", inter), ("walk[f,g].f", log1), ("walk[f,g].g", log2), ("walk(f)", log3)]
+    logs = [("interactions", inter), ("walk[f,g].f", log1), ("walk[f,g].g", log2), ("walk(f)", log3), ("walk(f) on the cube already walked", log4), ("interactions() again", inter2)]
     for name, log in logs:
         got = Counter()
         for coords, rows in log:
